@@ -192,6 +192,25 @@ def prop(case, res):
             r2 = core.out(m.validate, fixed, **vopts)
             if r2[0] == 'verr' and r2[1] == 'InvalidChecksum':
                 res.violation('%s|completed-payload-rejected-InvalidChecksum' % key, 'c05', case, {'completed': fixed, 'from': v})
+    # (c) for the shorter presentations a validator accepts by padding (gr.vat 8 digits, ...): the payload without its
+    # leading zeros, completed with the generated check character. Reported only if another check character is accepted
+    # for that very payload, i.e. generator and validator demonstrably disagree.
+    if t['arg'] is init and t['sl'] == LAST and v[:1] == '0' and t['alt'] != 'two':
+        k = 0
+        while k < len(v) - 2 and v[k] == '0':
+            k += 1
+            pl = v[k:-1]
+            g4 = core.out(fn, pl)
+            res.evals += 1
+            if g4[0] != 'ok' or not isinstance(g4[1], str):
+                continue
+            r = core.out(m.validate, pl + g4[1], **vopts)
+            res.hist['clause-c-short:' + (r[1] if r[0] == 'verr' else r[0])] += 1
+            if r[0] == 'verr' and r[1] == 'InvalidChecksum':
+                other = [c for c in ALNUM if c != g4[1] and core.out(m.validate, pl + c, **vopts)[0] == 'ok']
+                if other:
+                    res.violation('%s|short-payload-completed-rejected-InvalidChecksum' % key, 'c05', case,
+                                  {'payload': pl, 'generated': g4[1], 'accepted-instead': other})
     if res.hist['numbers:' + key] % 13 == 1:
         res.sample({'module': t['mod'], 'generator': t['fn'], 'number': v, 'check': present})
 
